@@ -26,7 +26,7 @@ from vlib import driver
 from vlib.framework import REPO, WORK
 
 PROPS = ["MxlVerif.Props.C08"]
-SCRATCH = WORK / "c08"
+SCRATCH = WORK / f"c08-{os.getpid()}"  # per run: two checks of this property may run at the same time (seed matrix)
 # IPython (pulled in by a dependency) keeps a history database in $IPYTHONDIR: parallel checks must not share it
 os.environ.setdefault("IPYTHONDIR", str(WORK / f"ipython-{os.getpid()}"))
 atexit.register(shutil.rmtree, WORK / f"ipython-{os.getpid()}", ignore_errors=True)  # runs after IPython's own hook
